@@ -75,6 +75,10 @@ pub struct SupplyTrace {
     /// there: where the files lie (and what lay there before) must not matter
     #[serde(default)]
     pub alt_dir_on_odd_reps: bool,
+    /// after each repetition's own verification the same call is made by this many caller threads at once
+    /// (only for worlds without inspections): their verdicts join the repetition's
+    #[serde(default)]
+    pub concurrent: u8,
 }
 
 pub struct SupplyOutcome {
@@ -204,6 +208,14 @@ pub fn run_supply(t: &SupplyTrace, scratch: &Scratch) -> SupplyOutcome {
                 no_layout = Some(e);
             }
             CallResult::Verdict(v) => verdicts.push(v),
+        }
+        if t.concurrent > 0 && no_layout.is_none() {
+            fn has_inspections(l: &LevelSpec) -> bool {
+                !l.layout.inspect.is_empty() || l.files.iter().any(|f| matches!(&f.body, Body::Layout(i) if has_inspections(i)))
+            }
+            if !has_inspections(&t.root) {
+                verdicts.extend(exec::verify_concurrently(&call, t.concurrent as usize));
+            }
         }
         if armed {
             let (_calls, short, eintr, eio) = crate::seams::read_disarm();
